@@ -5,14 +5,14 @@ From Coq Require Import NArith ZArith List Extraction ExtrOcamlBasic.
 From MZ.lib Require Import Arr Bits.
 From MZ.spec Require Import Adler Crc DeflateSpec.
 From MZ.gen Require Import GenZlib GenTables.
-From MZ.model Require Import Oracle InflateCore InflateDrive.
+From MZ.model Require Import Oracle InflateCore InflateDrive InflateStream.
 
 Extraction Language OCaml.
 Extraction "mzmodel.ml"
   Adler.adler32 Crc.crc32 Oracle.thread_splits
   DeflateSpec.inflate_spec DeflateSpec.zlib_spec DeflateSpec.inflate_spec_bits
   DeflateSpec.bits_of_bytes
-  Oracle.summarize Oracle.prefix_spec Oracle.block_is_sync
+  Oracle.summarize Oracle.prefix_spec Oracle.block_is_sync Oracle.spec_ring
   GenZlib.header_from_flags GenZlib.validate_zlib_header GenZlib.num_extra_bits_for_distance_code
   GenZlib.create_comp_flags_from_zip_params GenZlib.limit_level_by_window_bits
   GenZlib.window_bits_from_flags GenZlib.probes_from_flags GenZlib.update_hash
@@ -20,4 +20,6 @@ Extraction "mzmodel.ml"
   Arr.amake Arr.aget Arr.aset Arr.alen Arr.aset_list Arr.aget_list Arr.aof_list
   InflateCore.decompress InflateCore.dec_default InflateCore.dec_init InflateCore.dec_adler32
   InflateCore.status_code InflateCore.state_id
-  InflateDrive.drive.
+  InflateDrive.drive
+  InflateStream.is_new InflateStream.min_reset InflateStream.zero_reset InflateStream.full_reset
+  InflateStream.inflate InflateStream.decompress_to_vec_inner InflateStream.decompress_slice_iter_to_slice.
